@@ -25,7 +25,8 @@ def generate(family, maxw, nshards, wd, timeout=1500):
     def one(sh):
         out = os.path.join(wd, "vec-%s-%d.ndjson" % (family, sh))
         r = tlc.run_tlc("Progs", constants={"MaxW": maxw, "Shard": sh, "NShards": nshards,
-                                             "OutFile": out, "Family": family},
+                                             "OutFile": out, "Family": family,
+                                             "PinnedMerge": False},
                         workers=1, timeout=timeout, heap="6g")
         return (sh, out, r)
     res = common.parallel(one, list(range(nshards)), workers=nshards)
@@ -107,6 +108,14 @@ def replay(vd, vecs, bdir, wd, pid, flavour_tag="plain", check_illformed=True,
             continue
         if (len(exp) > 0 or v["hi"] > 0) and (kinds(v["ast"]) & STATEFUL):
             nontrivial.add(txt)
+        # binding of the mechanism layer: the exact pull sequence of this execution must be
+        # the (unique) behaviour of tla/EngineOps.tla for this program
+        if v.get("engok"):
+            eng = [zw.norm_model_stack(s, pos) for s in v["eng"]]
+            if eng == got:
+                vd.cov["traces_validated_against_impl"] += 1
+            else:
+                vd.drift.append("pull sequence of `%s' differs from the engine model" % txt)
     # confirm every mismatch by a second, isolated run
     confirmed = 0
     if mismatches:
@@ -135,3 +144,21 @@ def replay(vd, vecs, bdir, wd, pid, flavour_tag="plain", check_illformed=True,
         vd.sample({"program": texts[i], "kind": vecs[i]["kind"],
                    "expected_results": len(vecs[i].get("den", []))})
     return confirmed
+
+
+ENGINE_INVARIANTS = ["OutWithinDen", "DoneMeansAll", "DiagWithin", "OrderWhereFixed", "Lifecycle",
+                     "AllDeadAfterDestroy", "NeverOutOfFuel"]
+
+
+def model_check(vd, family, maxw, workers=16, timeout=1500, pinned=False, invariants=None):
+    """TLC on tla/Engine.tla: mechanism layer refines the meaning layer, over all programs of
+    the family up to the weight bound, all pull counts and all abandonment points."""
+    r = tlc.run_tlc("Engine", constants={"PinnedMerge": pinned, "EFamily": family, "EMaxW": maxw},
+                    spec="Spec", invariants=invariants or ENGINE_INVARIANTS, workers=workers,
+                    timeout=timeout, heap="12g")
+    if r.violated:
+        return r
+    if not r.ok:
+        raise common.ToolError("TLC on Engine.tla failed:\n" + r.out[-3000:])
+    vd.add_states(r)
+    return r
